@@ -75,8 +75,28 @@ def derivedPinnedOp (args : List String) : Option String :=
     let t ← listOf flt
     pure (fList fF (derivedTraceGatherPinned size w t))) args
 
+/-- `c18.draw n given` → how many posterior samples the post-processing of an optimizer constructed with
+    `sigma_fraction = given` (`0` = not given: the default 0.1) draws out of `n`: `int(n*fraction)` -/
+def drawOp (args : List String) : Option String :=
+  run (do
+    let n ← nat
+    let given ← optOf flt
+    let f : Float := heldFraction 0.1 given
+    if f < 0 || f.isNaN then pure none
+    else pure (some (fN (drawCount Float.ofNat (fun x => x.floor.toUInt64.toNat) n f)))) args >>= id
+
+/-- `c18.post size draw floor xs ws` → `postProcess size draw floor samples` -/
+def postOp (args : List String) : Option String :=
+  run (do
+    let size ← nat
+    let draw ← listOf nat
+    let floor ← flt
+    let l ← samplesP
+    pure (fRes (postProcess size draw floor l))) args
+
 def ops : List Op :=
   [("c18.acc", accOp), ("c18.pool", poolOp), ("c18.split", splitOp), ("c18.strided", stridedOp),
-   ("c18.twopass", twoPassOp), ("c18.derived", derivedOp), ("c18.derived_pinned", derivedPinnedOp)]
+   ("c18.twopass", twoPassOp), ("c18.derived", derivedOp), ("c18.derived_pinned", derivedPinnedOp),
+   ("c18.draw", drawOp), ("c18.post", postOp)]
 
 end Taurex.Ops.C18
